@@ -17,6 +17,15 @@ func VerifTrieKey(c enc.Component) string {
 // Verification hooks (build tag `verif` only): read-only dumps of the application PIT and FIB tries.
 // No behaviour of the engine is changed; with the tag off this file is not compiled.
 
+// VerifConstants returns the package constants the verification model depends on, in nanoseconds
+// (evaluated by the compiler, whatever the declaration style).
+func VerifConstants() map[string]int64 {
+	return map[string]int64{
+		"DefaultInterestLife": int64(DefaultInterestLife),
+		"TimeoutMargin":       int64(TimeoutMargin),
+	}
+}
+
 // VerifProbe is the Result value passed to Express callbacks by VerifPitDump so that a test harness can
 // identify which pending Interest sits in which trie node. It is not a value the engine ever produces.
 const VerifProbe ndn.InterestResult = -77
